@@ -90,17 +90,63 @@ func main() {
 	stgutg.ManageNGSetup(conn, string(gnb), c.IMSI, c.MNC, uint64(c.GnbBitLength), c.GnbName)
 
 	if mode == "multi" {
-		// several subscribers (explicit SUPIs, possibly roamers from another PLMN) register one after
-		// the other over one association; some deregister again
+		// Several subscribers - explicit SUPIs, possibly roamers from another PLMN, possibly with
+		// their own credentials - share one process and one association: all UE contexts are created
+		// first (in create_order), then the UEs register one after the other (in list order), then
+		// some deregister. What UE creation returned is logged before anything else happens.
 		dereg, _ := s.Rig["dereg"].([]interface{})
-		var ues []*tglib.RanUeContext
-		for i, sub := range s.Subscribers {
-			u := tglib.NewRanUeContext("imsi-"+sub, int64(num(s.Rig, "ran_id", 1)+i), nea, nia)
-			u.AuthenticationSubs = tglib.GetAuthSubscription(c.K, c.OPC, c.OP)
-			u, _, _ = stgutg.RegisterUE(u, c.MNC, c.MCC, conn)
-			ues = append(ues, u)
-			w.Log(world.Event{Ev: "ctx", I: i, UE: i, Info: map[string]interface{}{"supi": u.Supi, "ran_ue_ngap_id": u.RanUeNgapId, "amf_ue_ngap_id": u.AmfUeNgapId}})
+		order, _ := s.Rig["create_order"].([]interface{})
+		viaCreate, _ := s.Rig["via_create_ue"].(bool)
+		n := len(s.Subscribers)
+		cred := func(i int) (string, string, string) {
+			if i < len(s.SubCreds) && s.SubCreds[i].K != "" {
+				return s.SubCreds[i].K, s.SubCreds[i].OPC, s.SubCreds[i].OP
+			}
+			return c.K, c.OPC, c.OP
 		}
+		ues := make([]*tglib.RanUeContext, n)
+		for step := 0; step < n; step++ {
+			i := step
+			if step < len(order) {
+				i = int(order[step].(float64))
+			}
+			if i < 0 || i >= n || ues[i] != nil {
+				continue
+			}
+			k, opc, op := cred(i)
+			if viaCreate {
+				ues[i] = stgutg.CreateUE(s.Subscribers[i], 0, k, opc, op)
+			} else {
+				ues[i] = tglib.NewRanUeContext("imsi-"+s.Subscribers[i], int64(num(s.Rig, "ran_id", 1)+i), nea, nia)
+				ues[i].AuthenticationSubs = tglib.GetAuthSubscription(k, opc, op)
+			}
+		}
+		for i, u := range ues {
+			if u == nil {
+				k, opc, op := cred(i)
+				u = stgutg.CreateUE(s.Subscribers[i], 0, k, opc, op)
+				ues[i] = u
+			}
+			a := u.AuthenticationSubs
+			info := map[string]interface{}{"supi": u.Supi, "ran_ue_ngap_id": u.RanUeNgapId, "nea": u.CipheringAlg, "nia": u.IntegrityAlg}
+			if a.PermanentKey != nil {
+				info["k"] = a.PermanentKey.PermanentKeyValue
+			}
+			if a.Opc != nil {
+				info["opc"] = a.Opc.OpcValue
+			}
+			if a.Milenage != nil && a.Milenage.Op != nil {
+				info["op"] = a.Milenage.Op.OpValue
+			}
+			w.Log(world.Event{Ev: "created", I: i, UE: i, Info: info})
+		}
+		for i, u := range ues {
+			u, _, _ = stgutg.RegisterUE(u, c.MNC, c.MCC, conn)
+			ues[i] = u
+			w.Log(world.Event{Ev: "ctx", I: i, UE: i, Info: map[string]interface{}{"supi": u.Supi, "ran_ue_ngap_id": u.RanUeNgapId, "amf_ue_ngap_id": u.AmfUeNgapId,
+				"kamf": hex.EncodeToString(u.Kamf), "knasint": hex.EncodeToString(u.KnasInt[:]), "knasenc": hex.EncodeToString(u.KnasEnc[:]), "ul_count": u.ULCount.Get(), "dl_count": u.DLCount.Get()}})
+		}
+		w.Summary(true)
 		for _, d := range dereg {
 			if i := int(d.(float64)); i >= 0 && i < len(ues) {
 				stgutg.DeregisterUE(ues[i], c.MNC, conn)
